@@ -33,8 +33,8 @@ add("C07", "exhaustive enumeration of all ordered pairs (and all triples of a wi
 add("C08", "full code-point sweep in 12 contexts + enumeration of every canonical decomposition and its reorderings + bounded string tree; invariant evaluated on every accepted output",
     "Every scalar value between 3 prefixes and 4 suffixes x 4 profiles, every canonically decomposable character's decompositions/mark permutations/prefixes/upper-cased variants, all strings of length <= 4/5 over 24 cased/width/compatibility symbols: each accepted result is re-classified code point by code point with the profile's class and the reference derived property, and re-enforced (must return itself or an error).",
     TB_UCD + "; known finding cherokee_lowercase_unassigned.", "DESIGN.md 4/C08")
-add("C09", "exhaustive enumeration of all bidi-class sequences up to a length bound + full sweep of assigned code points through the class table",
-    "All sequences of length <= 6/7 over the 23 bidirectional classes (3.56e9 at 7) through directionality_rule, compared with the six RFC 5893 conditions written as set predicates; every code point assigned in the profile crate's UnicodeData in 5 contexts that separate every class partition the rule can observe.",
+add("C09", "exhaustive enumeration of all bidi-class sequences up to a length bound + complete W-method conformance suite of the specification automaton + full sweep of assigned code points through the class table",
+    "All sequences of length <= 6/7 over the 23 bidirectional classes (3.56e9 at 7) through directionality_rule, compared with the six RFC 5893 conditions written as set predicates; every code point assigned in the profile crate's UnicodeData in 5 contexts that separate every class partition the rule can observe; and the complete Chow/Vasilevskii test suite of the 10-state specification automaton with 2/4 extra states, which extends the verdict to class sequences of every length under the stated state-count assumption.",
     "The scan's state is reached by <= 4 symbols so the bound covers every transition of every reachable state; a change adding a counter beyond the bound is outside it. " + TB_UCD + "; known finding bidi_interior_nsm.", "DESIGN.md 4/C09")
 add("C10", "exhaustive enumeration of bounded string tree + full code-point sweep in 10 position templates",
     "All strings of length <= 5/6 over 16 symbols (upper, lower, titlecase, Other_Uppercase, multi-character mapping, 1-4 bytes, uncased) and every scalar value in 10 templates through case_mapping_rule of both profiles that have it; result must be the concatenation of each character's full lowercase mapping; idempotence checked on every output.",
